@@ -1015,4 +1015,260 @@ theorem flagsByName_error {ty : String} {table : List (String × Int)} {parts : 
         simp only [he]
         exact ⟨e, rfl⟩
 
+/-! ### side conditions on a schema (decided for the shipped schemas at the end of this file) -/
+
+/-- declaration names are pairwise distinct, and a type that registers with a factory is concrete -/
+def schemaOk (S : Schema) : Bool :=
+  decide (S.map (·.1)).Nodup &&
+  S.all fun e => match e.2 with
+    | .struct d => !d.base.isSome || !d.abstract
+    | _ => true
+
+theorem schemaOk_names {S : Schema} (h : schemaOk S = true) : (S.map (·.1)).Nodup := by
+  simp only [schemaOk, Bool.and_eq_true, decide_eq_true_eq] at h
+  exact h.1
+
+theorem schemaOk_child {S : Schema} (h : schemaOk S = true) {b n : String} {d : StructDef}
+    (hc : (n, d) ∈ S.children b) : S.find n = some (.struct d) ∧ d.abstract = false := by
+  refine ⟨children_find (schemaOk_names h) hc, ?_⟩
+  simp only [schemaOk, Bool.and_eq_true, List.all_eq_true] at h
+  unfold Schema.children at hc
+  rw [List.mem_filterMap] at hc
+  obtain ⟨⟨n', t⟩, hin, hf⟩ := hc
+  cases t with
+  | struct d' =>
+    simp only at hf
+    split at hf
+    · rename_i hb
+      simp only [Option.some.injEq, Prod.mk.injEq] at hf
+      obtain ⟨rfl, rfl⟩ := hf
+      have := h.2 _ hin
+      simp only [Bool.or_eq_true, Bool.not_eq_true'] at this
+      rcases this with h1 | h2
+      · have : d'.base = some b := by simpa using hb
+        simp [this] at h1
+      · exact h2
+    · cases hf
+  | int w s => simp at hf
+  | bytes k => simp at hf
+  | enum w s bw ms => simp at hf
+
+/-- the resolved type of a successful `resolve` is a concrete struct of the schema -/
+theorem resolve_struct {cfg : Config} (hS : schemaOk cfg.schema = true) {embedded : Bool} {desc : List (String × DVal)}
+    {ty : String} {d : StructDef} (h : resolve cfg embedded desc = .ok (ty, d)) :
+    cfg.schema.find ty = some (.struct d) ∧ d.abstract = false := by
+  obtain ⟨base, name, -, -, hc⟩ := resolve_ok h
+  exact schemaOk_child hS (createByName_mem hc)
+
+/-! ### what `create` does after copying the descriptor -/
+
+/-- members that `create` computes itself after `create_from_factory` -/
+def computedAfter (cfg : Config) (n : String) : Bool :=
+  (cfg.idAutofill && n == "id") || (cfg.messageHack && n == "message")
+
+/-- after copying, `create` changes nothing but: the order of keyed arrays and nested objects (autosort), the `id`
+    (symbol) and the transfer `message` (nem) -/
+theorem finish_get {p : Prims} {cfg : Config} {autosort : Bool} {ty : String} {d : StructDef} {st : St} {v : Val}
+    (hfind : cfg.schema.find ty = some (.struct d)) (habs : d.abstract = false)
+    (h : finish p cfg autosort ty d st = .ok v) :
+    ∃ vs, v = .struct ty vs ∧ vs.map (·.1) = st.vs.map (·.1) ∧
+      ∀ n w, computedAfter cfg n = false → Val.get st.vs n = some w →
+        (autosort = false ∨ isAtom w = true) → Val.get vs n = some w := by
+  obtain ⟨vs0, vs1, vs2, h0, h1, h2, hv⟩ := finish_ok h
+  -- step 0: the message hack
+  have names0 : vs0.map (·.1) = st.vs.map (·.1) ∧
+      ∀ n, (cfg.messageHack = true → n ≠ "message") → Val.get vs0 n = Val.get st.vs n := by
+    cases hm : cfg.messageHack with
+    | false =>
+      simp only [hm, Bool.false_eq_true, if_false, Except.ok.injEq] at h0
+      subst h0; exact ⟨rfl, fun _ _ => rfl⟩
+    | true =>
+      simp only [hm, if_true] at h0
+      rcases messageHack_effect h0 with rfl | ⟨mv, rfl⟩
+      · exact ⟨rfl, fun _ _ => rfl⟩
+      · exact ⟨names_assign _ _ _, fun n hn => get_assign_ne _ _ _ _ (hn rfl)⟩
+  -- step 1: autosort
+  have names1 : vs1.map (·.1) = vs0.map (·.1) ∧
+      ∀ n w, Val.get vs0 n = some w → (autosort = false ∨ isAtom w = true) → Val.get vs1 n = some w := by
+    rcases h1 with ⟨_, rfl⟩ | ⟨hs, -, t, hsort⟩
+    · exact ⟨rfl, fun _ _ hg _ => hg⟩
+    · obtain ⟨vs', hv', hn', hatoms, -⟩ := sort_effect hfind habs hsort
+      simp only [Val.struct.injEq] at hv'
+      obtain ⟨-, rfl⟩ := hv'
+      refine ⟨hn', fun n w hg hor => ?_⟩
+      rcases hor with hf | ha
+      · rw [hs] at hf; cases hf
+      · exact hatoms n w hg ha
+  -- step 2: id autofill
+  have names2 : vs2.map (·.1) = vs1.map (·.1) ∧
+      ∀ n, (cfg.idAutofill = true → n ≠ "id") → Val.get vs2 n = Val.get vs1 n := by
+    cases hi : cfg.idAutofill with
+    | false =>
+      simp only [hi, Bool.false_eq_true, if_false, Except.ok.injEq] at h2
+      subst h2; exact ⟨rfl, fun _ _ => rfl⟩
+    | true =>
+      simp only [hi, if_true] at h2
+      rcases autofillIds_effect h2 with rfl | ⟨i, rfl⟩
+      · exact ⟨rfl, fun _ _ => rfl⟩
+      · exact ⟨names_assign _ _ _, fun n hn => get_assign_ne _ _ _ _ (hn rfl)⟩
+  refine ⟨vs2, hv, by rw [names2.1, names1.1, names0.1], ?_⟩
+  intro n w hc hg hor
+  simp only [computedAfter, Bool.or_eq_false_iff, Bool.and_eq_false_iff] at hc
+  have hid : cfg.idAutofill = true → n ≠ "id" := by
+    intro hi; rcases hc.1 with h | h
+    · rw [hi] at h; cases h
+    · simpa using h
+  have hmsg : cfg.messageHack = true → n ≠ "message" := by
+    intro hi; rcases hc.2 with h | h
+    · rw [hi] at h; cases h
+    · simpa using h
+  rw [names2.2 n hid]
+  apply names1.2 n w _ hor
+  rw [names0.2 n hmsg]; exact hg
+
+
+theorem coerce_enum_int_ok {cfg : Config} {top : Bool} {ety : String} {w : Nat} {sg : Bool} {ms : List (String × Int)}
+    {i : Int} {cv : Val} (hfind : cfg.schema.find ety = some (.enum w sg false ms))
+    (h : coerce cfg top true (.ty ety) (.int i) = .ok cv) : cv = .int i ∧ enumAdmits false ms i = true := by
+  rw [coerce_int_eq] at h
+  by_cases hadm : enumAdmits false ms i = true
+  · simp [coerceAtom, ruleOf, hfind, hadm] at h
+    exact ⟨h.symm, hadm⟩
+  · simp [coerceAtom, ruleOf, hfind, hadm] at h
+
+
+/-- if some entry of the processed descriptor is refused by `copy_to` whatever the state, `create` raises -/
+theorem create_error_of_bad_entry {p : Prims} {cfg : Config} {autosort embedded : Bool} {desc : List (String × DVal)}
+    (key : String) (dv : DVal) (hmem : (key, dv) ∈ withNetwork cfg desc)
+    (hbad : ∀ ty d, resolve cfg embedded (withNetwork cfg desc) = .ok (ty, d) →
+      ∀ st, ∃ e, stepEntry cfg ty d true key dv st = .error e) :
+    ∃ e, create p cfg autosort embedded desc = .error e := by
+  unfold create build
+  cases hr : resolve cfg embedded (withNetwork cfg desc) with
+  | error e => exact ⟨e, rfl⟩
+  | ok r =>
+    obtain ⟨ty, d⟩ := r
+    simp only
+    cases hf : freshMembers cfg.schema ty with
+    | error e => exact ⟨e, rfl⟩
+    | ok fresh =>
+      simp only
+      obtain ⟨e, he⟩ := copyEntries_error_of_bad (withNetwork cfg desc) key dv hmem (hbad ty d hr) { vs := fresh }
+      rw [he]
+      exact ⟨e, rfl⟩
+
+
+theorem stepEntry_unknown {cfg : Config} {ty : String} {d : StructDef} {key : String} {dv : DVal}
+    (hk : key ≠ "type") (hu : classify cfg ty d key = .unknown) :
+    ∀ st, ∃ e, stepEntry cfg ty d true key dv st = .error e := by
+  intro st
+  unfold stepEntry
+  have : (true && key == "type") = false := by simpa using hk
+  simp only [this, Bool.false_eq_true, if_false, hu]
+  split <;> exact ⟨_, rfl⟩
+
+
+theorem stepEntry_coerce_error {cfg : Config} {ty : String} {d : StructDef} {key : String} {dv : DVal} {f : Field}
+    {hinted : Bool} {e0 : E} (hk : key ≠ "type") (hc : classify cfg ty d key = .member f hinted)
+    (he : coerce cfg true hinted (slotOf f.kind) dv = .error e0) :
+    ∀ st, ∃ e, stepEntry cfg ty d true key dv st = .error e := by
+  intro st
+  unfold stepEntry
+  have : (true && key == "type") = false := by simpa using hk
+  simp only [this, Bool.false_eq_true, if_false, hc, he]
+  split <;> exact ⟨_, rfl⟩
+
+
+/-- a key for which `hasattr(instance, key)` is false -/
+theorem classify_unknown_of_not_attr {cfg : Config} {ty : String} {d : StructDef} {key : String}
+    (h : key ∉ attrNames cfg ty d) : classify cfg ty d key = .unknown := by
+  unfold attrNames at h
+  simp only [List.mem_append, not_or] at h
+  obtain ⟨⟨⟨h1, h2⟩, h3⟩, h4⟩ := h
+  unfold classify
+  split
+  · rename_i f hf
+    exfalso; apply h1
+    rw [List.mem_map]
+    exact ⟨f, List.mem_of_find?_eq_some hf, by simpa using List.find?_some hf⟩
+  · split
+    · rename_i f hf
+      exfalso; apply h2
+      rw [List.mem_map]
+      exact ⟨f, List.mem_of_find?_eq_some hf, by simpa using List.find?_some hf⟩
+    · split
+      · rename_i hsz
+        exfalso; apply h3
+        have : key = "size" := by simpa using hsz
+        simp [this]
+      · split
+        · rename_i hc
+          exfalso; apply h4
+          simpa using hc
+        · rfl
+
+
+theorem inRange_unsigned_iff (w : Nat) (i : Int) : inRange w false i = true ↔ 0 ≤ i ∧ i < ((256 ^ w : Nat) : Int) := by
+  simp [inRange]
+
+
+theorem sortable_keyed {S : Schema} {d : StructDef} {vs : List (String × Val)} (h : sortable S d vs = true)
+    {f : Field} {elem : String} {m : ArrMode} {al : Nat} {pl : Bool} {key : String}
+    (hf : f ∈ d.fields) (hk : f.kind = .array elem m al pl (some key)) (hc : f.cond = none) :
+    ∃ l, Val.get vs f.name = some (.arr l) := by
+  unfold sortable at h
+  rw [List.all_eq_true] at h
+  have hcar : f ∈ carrying d := by
+    unfold carrying
+    rw [List.mem_filter]
+    exact ⟨hf, by rw [hk]; rfl⟩
+  have := h f hcar
+  rw [hk, hc] at this
+  cases hg : Val.get vs f.name with
+  | none => simp [hg] at this
+  | some v =>
+    cases v with
+    | arr l => exact ⟨l, rfl⟩
+    | int i => simp [hg] at this
+    | bytes b => simp [hg] at this
+    | struct t fs => simp [hg] at this
+    | none => simp [hg] at this
+
+
+theorem namespaceIdFor_assign_id (p : Prims) (S : Schema) (vs : List (String × Val)) (x : Val) :
+    namespaceIdFor p S (assign vs "id" x) = namespaceIdFor p S vs := by
+  unfold namespaceIdFor
+  rw [get_assign_ne _ _ _ _ (by decide : "registration_type" ≠ "id"),
+    get_assign_ne _ _ _ _ (by decide : "parent_id" ≠ "id"), get_assign_ne _ _ _ _ (by decide : "name" ≠ "id")]
+
+
+theorem mosaicIdFor_assign_id (p : Prims) (cfg : Config) (vs : List (String × Val)) (x : Val) :
+    mosaicIdFor p cfg (assign vs "id" x) = mosaicIdFor p cfg vs := by
+  unfold mosaicIdFor
+  rw [get_assign_ne _ _ _ _ (by decide : "signer_public_key" ≠ "id"), get_assign_ne _ _ _ _ (by decide : "nonce" ≠ "id")]
+
+
+theorem resolve_child {cfg : Config} {embedded : Bool} {desc : List (String × DVal)} {ty : String} {d : StructDef}
+    (h : resolve cfg embedded desc = .ok (ty, d)) :
+    (ty, d) ∈ cfg.schema.children cfg.txBase ∨ ∃ b, cfg.embBase = some b ∧ (ty, d) ∈ cfg.schema.children b := by
+  obtain ⟨base, name, hb, -, hc⟩ := resolve_ok h
+  cases embedded with
+  | false =>
+    simp only [Bool.false_eq_true, if_false, Option.some.injEq] at hb
+    subst hb; left; exact createByName_mem hc
+  | true =>
+    simp only [if_true] at hb
+    right; exact ⟨base, hb, createByName_mem hc⟩
+
+
+/-- `create_by_name` knows a name exactly when some child of the factory type is called so in snake case -/
+theorem createByName_none_iff (S : Schema) (base name : String) :
+    createByName S base name = none ↔ ∀ c ∈ S.children base, skipEmbedded (snake c.1) ≠ name := by
+  unfold createByName
+  rw [List.getLast?_eq_none_iff, List.filter_eq_nil_iff]
+  constructor
+  · intro h c hc; simpa using h c hc
+  · intro h c hc; simpa using h c hc
+
+
 end SymbolVerif.Sdk.Descriptor
